@@ -135,14 +135,99 @@ def eval_tree(tree, seqs, alphabet, agg):
 
 
 def _block(block, agg):
+    if block[0] == "pairs":
+        return _block_pairs(block, agg)
     atoms, size, lo, hi, seq_alpha, seq_len = block
     seqs = R.sequences(seq_alpha, seq_len)
-    for tree in R.trees(size, atoms)[lo:hi]:
+    for idx, tree in enumerate(R.trees(size, atoms)[lo:hi]):
         for kind, sig, seq, detail in eval_tree(tree, seqs, seq_alpha, agg):
-            agg.violation(kind, sig, {"pattern": R.to_json(tree), "seq": seq, "alphabet": seq_alpha}, detail)
+            agg.violation(kind, sig, {"pattern": R.to_json(tree), "seq": seq, "alphabet": seq_alpha,
+                                      "context": {"block": list(block), "index": idx}}, detail)
+
+
+# ---------------------------------------------------------------------------------------
+# (c) histories of two patterns in one process (each pair in a forked child = same initial process state)
+# ---------------------------------------------------------------------------------------
+
+def pair_trees(max_size, atoms="ab"):
+    out = []
+    for sz in range(1, max_size + 1):
+        out += R.trees(sz, atoms)
+    return out
+
+
+def warm(tree):
+    """use pattern A the way a client would: every public entry point once"""
+    from codelimit.common.gsm import matcher
+
+    e = lambda: top_expr(tree)
+    for api, arg in (("match", list("ab")), ("nfa_match", list("ab")), ("starts_with", list("ab"))):
+        try:
+            getattr(matcher, api)(e(), arg)
+        except Exception:
+            pass
+    if not R.nullable(R.compile_tree(tree)):
+        try:
+            matcher.find_all(e(), list("abab"))
+        except Exception:
+            pass
+
+
+def run_pair(a_json, b_json, alpha, slen):
+    agg = core.Agg()
+    warm(R.from_json(a_json))
+    out = eval_tree(R.from_json(b_json), R.sequences(alpha, slen), alpha, agg)
+    return [[k, sig, seq, d] for k, sig, seq, d in out]
+
+
+def _block_pairs(block, agg):
+    from mc.checks.c06 import isolated
+
+    _, max_size, lo, hi, alpha, slen = block
+    trees = pair_trees(max_size)
+    for a in trees[lo:hi]:
+        aj = R.to_json(a)
+        for b in trees:
+            if a == b:
+                continue
+            bj = R.to_json(b)
+            res = isolated(run_pair, aj, bj, alpha, slen)
+            agg.case({"history": [aj], "pattern": bj}, True, "ok" if not res else res[0][0], sample=False)
+            agg.transitions += 1
+            for kind, sig, seq, detail in res:
+                agg.violation("result-depends-on-previously-used-pattern", {"api": sig.get("api"), "underlying": kind},
+                              {"history": [aj], "pattern": bj, "seq": seq, "alphabet": alpha, "slen": slen},
+                              f"after using pattern {R.show(a)}: {detail}")
 
 
 def replay(case):
+    from mc.checks.c06 import isolated
+
+    if "history" in case:
+        res = isolated(run_pair, case["history"][0], case["pattern"], case.get("alphabet", "ab"), case.get("slen", 3))
+        return [{"kind": "result-depends-on-previously-used-pattern", "sig": {"api": sig.get("api"), "underlying": k}, "detail": d}
+                for k, sig, seq, d in res if seq == case.get("seq") or True][:3]
+    out = isolated(_replay_isolated, case)
+    if out or "context" not in case:
+        return out
+    # not reproducible in isolation: does it reproduce when the earlier patterns of its block are used first (same process)?
+    def rerun(block, index):
+        agg = core.Agg()
+        atoms, size, lo, hi, alpha, slen = block
+        seqs = R.sequences(alpha, slen)
+        found = []
+        for i, tree in enumerate(R.trees(size, atoms)[lo:hi]):
+            r = eval_tree(tree, seqs, alpha, agg)
+            if i == index:
+                found = [[k, sig, d] for k, sig, seq, d in r]
+                break
+        return found
+
+    res = isolated(rerun, case["context"]["block"], case["context"]["index"])
+    return [{"kind": k, "sig": sig, "detail": "[only after the earlier patterns of the same block were used in the same process] " + d} for k, sig, d in res]
+
+
+def _replay_isolated(case):
     agg = core.Agg()
     tree = R.from_json(case["pattern"])
     alpha = case.get("alphabet", "abc")
@@ -154,6 +239,10 @@ def replay(case):
 
 
 def run(ctx: core.Ctx):
+    # import (not use) everything the children need, so that 25 000 forked children do not each import it again
+    from codelimit.common.gsm import matcher, Expression, Pattern  # noqa
+    from codelimit.common.gsm.operator import OneOrMore, Optional, Union, ZeroOrMore  # noqa
+    import mc.checks.c06  # noqa
     # (atoms, max size, sequence alphabet, max sequence length)
     plans = ctx.pick(
         [("ab", 4, "abc", 5), ("abc", 3, "abc", 5), ("ab", 5, "ab", 4)],
@@ -162,7 +251,8 @@ def run(ctx: core.Ctx):
     ctx.bounds = {"plans(atoms,max_size,seq_alphabet,max_len)": plans}
     ctx.rule = ("cases = (pattern tree, sequence): every tree with <= max_size nodes over the atoms (cat right-nested), "
                 "every sequence over the alphabet up to max_len, through match / nfa_match / starts_with; plus per tree the "
-                "reachable (real DFA state, Brzozowski derivative) pairs to fixpoint (states/transitions). Non-trivial: "
+                "reachable (real DFA state, Brzozowski derivative) pairs to fixpoint (states/transitions); plus every ORDERED PAIR of trees up to "
+                "pattern_pairs.max_size: the first is used through every entry point, then the second is checked completely, each pair in a forked child. Non-trivial: "
                 "non-empty sequence whose first letter is a viable prefix. Distinct = distinct (tree, sequence).")
     ctx.assumptions = ["atoms are pairwise-disjoint Identity predicates over single letters",
                        "reference semantics: Brzozowski derivatives with ACI-normalised constructors (mc/refs/regex.py)"]
@@ -177,4 +267,10 @@ def run(ctx: core.Ctx):
             step = max(1, min(400, n // (ctx.workers * 4) + 1))
             for lo in range(0, n, step):
                 blocks.append((atoms, size, lo, min(n, lo + step), alpha, slen))
-    ctx.run_blocks(_block, blocks)
+    pair_size = ctx.pick(4, 5)
+    npair = len(pair_trees(pair_size))
+    ctx.bounds["pattern_pairs"] = {"max_size": pair_size, "trees": npair, "ordered_pairs": npair * (npair - 1), "sequences": "all over ab up to length 3"}
+    step = max(1, npair // (ctx.workers * 4) + 1)
+    for lo in range(0, npair, step):
+        blocks.append(("pairs", pair_size, lo, min(npair, lo + step), "ab", 3))
+    ctx.run_blocks(_block, blocks, fresh=True)
